@@ -60,7 +60,8 @@ Inject(m) == /\ running /\ connected /\ ~released /\ Len(recvQ) < MaxQ
 LocalStop == /\ running /\ st # "Closed" /\ active
              /\ active' = FALSE /\ out' = <<>> /\ dlv' = <<>>
              /\ UNCHANGED <<st, recvQ, peerGone, connected, refused, idle, running, released>>
-PeerDisc == /\ running /\ connected /\ ~peerGone /\ ~released /\ st \in {"WaitICEA", "Open", "Closing"}
+PeerDisc == /\ running /\ connected /\ ~peerGone /\ ~released
+            /\ (st \in {"WaitICEA", "Open", "Closing"} \/ (st = "Closed" /\ Role = "server"))
             /\ peerGone' = TRUE /\ idle' = FALSE /\ out' = <<>> /\ dlv' = <<>>      \* the disconnect is a socket event
             /\ UNCHANGED <<st, recvQ, active, connected, refused, running, released>>
 IdleReached == /\ running /\ st = "Open" /\ ~idle /\ ~peerGone
@@ -138,9 +139,10 @@ Tick == /\ running
              THEN \* the state machine thread dies: nothing ticks any more (a violation of the property)
                   /\ running' = FALSE /\ out' = r.o /\ dlv' = r.d /\ recvQ' = r.q
                   /\ UNCHANGED <<st, active, peerGone, connected, refused, idle, released>>
-             ELSE /\ st' = r.next /\ recvQ' = r.q /\ out' = r.o /\ dlv' = r.d /\ idle' = r.idl
-                  /\ IF r.next = "Closed" /\ st # "Closed"
-                     THEN \* get_next_state: the thread stops and the association is closed
+             ELSE /\ st' = r.next /\ recvQ' = r.q /\ dlv' = r.d /\ idle' = r.idl
+                  /\ out' = IF peerGone THEN <<>> ELSE r.o        \* nothing reaches a peer that has disconnected
+                  /\ IF r.next = "Closed" /\ (st # "Closed" \/ (peerGone /\ connected /\ "D_EofIgnored" \notin Deviations))
+                     THEN \* (a server still in Closed whose peer disconnected before the CER releases its transport too) \* get_next_state: the thread stops and the association is closed
                           /\ running' = FALSE /\ released' = TRUE /\ connected' = FALSE /\ active' = FALSE
                           /\ peerGone' = FALSE                  \* the transport object is dropped with its signal
                      ELSE /\ active' = r.act /\ UNCHANGED <<running, released, connected, peerGone>>
@@ -169,7 +171,8 @@ ClosedImpliesReleased == (st = "Closed" /\ ~running) => released
 \* no input makes the state machine raise or stop ticking: it only stops when it reaches Closed
 KeepsTicking == [][(running /\ ~running') => st' = "Closed"]_vars
 \* a peer disconnect closes the connection at the next tick
-PeerDiscCloses == [][(Tick /\ peerGone /\ st \in {"WaitICEA", "Open", "Closing"}) => st' = "Closed"]_vars
+PeerDiscCloses == [][(Tick /\ peerGone /\ (st \in {"WaitICEA", "Open", "Closing"} \/ (st = "Closed" /\ st' = "Closed")))
+                      => (st' = "Closed" /\ released' /\ ~running')]_vars
 \* anything but a CEA while awaiting one closes it (a CER there enters the unimplemented election states)
 NonCeaCloses == [][(Tick /\ st = "WaitICEA" /\ ~peerGone /\ recvQ # <<>> /\ Head(recvQ).k \notin {"CEA", "CER"}) => st' = "Closed"]_vars
 \* an idle open connection emits exactly one watchdog request and restarts the idle count
